@@ -9,7 +9,10 @@
 // files: unused senc/saiz/saio boxes inserted into the trafs
 // (gen/frag/encboxes.go; add-sidx also runs with -removeEnc), and files
 // stretched to several GiB by holes in their mdat boxes, decoded lazily
-// through a virtual ReadSeeker (gen/frag/stretch.go).
+// through a virtual ReadSeeker (gen/frag/stretch.go). A fifth family gives a
+// non-first track samples in moov (gen/frag/moovsamples.go); lazily decoded
+// files get oracle 2 on moof boxes and mdat headers; 1 in 3 of the decoded files
+// is mutated with Fragment.AddEmsg before UpdateSidx (oracle 3).
 package c12
 
 import (
@@ -42,7 +45,8 @@ func init() {
 			"(a tfra entry addresses the moof: the segment starts there and the emsg boxes in front stay with the fragment before; only the first segment starts at its emsg). " +
 			"Oracle 2: default segment-mode Encode and EncodeSW keep ftyp, moov and every emsg/moof/mdat byte-identical and in order. " +
 			"Oracle 3: UpdateSidx(addIfNotExists, nonZeroEPT drawn) then Encode (segment mode, and box-tree mode when the top level holds only boxes that segment mode writes too), and for 1 file in 4 the add-sidx binary: the first top-level sidx read from the output bytes tiles the media. " +
-			"Files with a 64-bit mdat header (and 1 in 8 of the others) are additionally decoded with DecodeFile + DecModeLazyMdat: oracle 1 against the ground truth, and the partition must equal the non-lazy one (oracles 2/3 do not apply: a lazy mdat is written without payload). " +
+			"Files with a 64-bit mdat header (and 1 in 8 of the others) are additionally decoded with DecodeFile + DecModeLazyMdat: oracle 1 against the ground truth, the partition must equal the non-lazy one, and oracle 2 in its lazy form: segment-mode Encode and EncodeSW of the lazily decoded file write ftyp, moov, every emsg and every moof byte-identically and every mdat as its unchanged header (oracle 3 does not apply: a lazy mdat is written without payload). " +
+			"For 1 in 3 of the decoded files the history goes on after decoding: Fragment.AddEmsg (1..2 new v0/v1 emsg boxes) on a drawn non-empty set of fragments (first or later fragments of their segments, with or without leading emsg boxes; fragments holding an emsg after their mdat are left alone), then UpdateSidx(true, nonZeroEPT) and segment-mode Encode: oracle 3 on the written bytes (a segment starts at the first box written for it, the new emsg included). " +
 			"Second family, 'reshaped files' (every case, after the first family, same history): gen/frag.Reshape rewrites 5 of 6 fragments of the built file byte by byte (no mp4ff call) into equivalent legal shapes with the same per-track sample lists: " +
 			"every traf split into 1..3 trafs of the same track (own tfhd, tfdt = decode time of its first sample), round-robin interleaved with the other tracks' trafs or adjacent; every traf's samples split into 1..4 truns; " +
 			"duration/size/flags per traf drawn from {per-sample trun fields, tfhd default, trex default, unused tfhd default} as far as the values allow, first_sample_flags where all but the first sample have the default, cto present or absent, trun version 0/1; " +
@@ -57,6 +61,7 @@ func init() {
 			"mdat size fields, sidx referenced sizes/first_offset and tfra moof offsets are fixed up (holes that a 31-bit referenced_size, a v0 first_offset, a v0 tfra offset or a compact mdat header cannot hold are dropped). The 1..21 GiB file exists only as a virtual io.ReadSeeker (bytes + zero holes) given to DecodeFile + DecModeLazyMdat with the case's flags: " +
 			"oracle 1 (weak + strong) against the moved ground truth; the partition must equal that of the unstretched file under the same flags; then UpdateSidx(addIfNotExists 7 in 8, nonZeroEPT drawn) and the filled sidx box, encoded alone and read back with ref/frag, is compared with the construction: reference count = decoded segments, " +
 			"referenced_size k = distance between the ground-truth starts of decoded segments k and k+1 (files without prft/free/... boxes), first_offset = size of the other top-level sidx boxes, durations/timescale/EPT from the history; a decoded segment of 2^31 bytes or more must make UpdateSidx fail. " +
+			"Fifth family, 'moovsamples' (cases with >= 2 tracks; base = the built or the reshaped file): gen/frag.AddMoovSamples gives, byte by byte, one trak other than the first 1..3 samples in moov (stts/stsc/stsz/stco entries, one chunk whose offset points into the payload of an mdat of the file; box sizes up to moov grown, tfra offsets re-pointed); the first trak stays empty (the library's definition of a fragmented file). The same readers and oracles 1-3 run on it. " +
 			"Non-trivial = decoded by at least one reader and holding >= 2 fragments (first family) / at least one rewritten fragment (second) / at least one traf with inserted boxes (third) / decoded with the weak form holding (fourth); distinct_nontrivial counts distinct (file, flags).",
 		Assumptions: []string{
 			"mixed delimiter layouts (styp on some segments, styp + flag, sidx + styp, segment-level sidx without styp, mfra + styp ...) get only the weak grouping form: the statement lists the mechanisms as alternatives; an emsg is no delimiter mechanism",
@@ -70,6 +75,9 @@ func init() {
 			"reshaped family: with several trafs of the reference track in one moof, 'the summed sample durations of the reference track in that segment' sums all of them, and the first presentation time (EPT clause) is that of the first sample of the first of them",
 			"tfra traf_number/trun_number/sample_number are not re-pointed by the rewriter (the decoder uses moof_offset only)",
 			"encboxes family: senc/saiz/saio in a traf whose sample entry is clear are legal unused boxes; byte-identical re-encoding covers them; with -removeEnc 'the media' is what the tool writes (the index clauses are checked on the output bytes); the per-segment sidx boxes of the input are not the index and may go stale",
+			"lazy form of oracle 2: 'emits every fragment byte-identically' for a file decoded with DecModeLazyMdat covers what segment mode writes for it: the moof (with every trun data_offset) and the mdat header; the payload is documented to be written separately",
+			"mutator histories: Fragment.AddEmsg on a decoded fragment is part of 'after UpdateSidx and encoding' (any File the public API leaves in a state UpdateSidx accepts); only segment-mode Encode is judged (box-tree mode writes File.Children, which the mutator does not touch); AddEmsg is documented for 'a sequence of emsg boxes at the start of the fragment': fragments with an emsg after the mdat are not mutated",
+			"moovsamples family: samples in moov of a track other than the first next to movie fragments are legal (14496-12 8.8: fragments extend the movie); a file whose FIRST track has stts entries is by the library's definition not fragmented and is not generated; the chunk may share bytes with a fragment's samples",
 			"stretched family: zero filler after the last sample byte of an mdat is legal; the written media of a lazily decoded file cannot be produced, so the index clauses are checked on the sidx box UpdateSidx filled (sizes against the input's segment extents, which segment mode reproduces when no prft/free/... box is dropped); a segment that no 31-bit referenced_size can hold must be refused with an error",
 		},
 		NumCases: func(env *runner.Env) int {
@@ -385,6 +393,13 @@ func run(c *runner.Ctx, idx int) {
 		base, baseShapes = nb, shapes
 	}
 	runStretched(c, h, base, baseShapes, flags)
+	// fifth family: a track other than the first carries samples in moov (files with >= 2 tracks;
+	// all draws after those of the other families)
+	base, baseShapes = b, nil
+	if nb != nil && c.Rand.Bool() {
+		base, baseShapes = nb, shapes
+	}
+	runMoovSamples(c, h, base, baseShapes, flags)
 }
 
 // fileOpts are the per-file draws of runFile.
@@ -451,6 +466,9 @@ func runFile(c *runner.Ctx, h *genfrag.History, b *genfrag.Built, o fileOpts) (d
 			} else if partDF != nil {
 				c.Count("lazy_partition_equals_nonlazy", 1)
 			}
+			// oracle 2 in the form a lazy decode allows: init, emsg and moof boxes byte-identical, mdat headers identical
+			e.oracle2Lazy(f)
+			// oracle 3 after public mutators (Fragment.AddEmsg) needs the payload: not here
 			continue
 		}
 		if reader == "DecodeFile" {
@@ -464,6 +482,12 @@ func runFile(c *runner.Ctx, h *genfrag.History, b *genfrag.Built, o fileOpts) (d
 		}
 		if tool && reader == "DecodeFile" && flags&mp4.DecISMFlag == 0 {
 			e.addSidxTool(part, o3nz)
+		}
+		// oracle 3 on a history that goes on after decoding: public mutators, then UpdateSidx and Encode
+		if c.Rand.Chance(1, 3) {
+			if f4, err, pi := e.decode(); err == nil && pi == nil {
+				e.oracle3AfterAddEmsg(f4, part, o3nz)
+			}
 		}
 	}
 	return decoded
@@ -911,6 +935,138 @@ func (e *env) oracle2(f *mp4.File) {
 	}
 }
 
+// lazyBox is one top-level box of a segment-mode output of a lazily decoded file: an mdat
+// is written as its header only (the declared size covers the payload that is not there).
+type lazyBox struct {
+	Type       string
+	Start, Len int // bytes present in the output
+}
+
+// walkLazy tiles such an output: every box by its size field, an mdat by its header length.
+func walkLazy(out []byte) ([]lazyBox, error) {
+	var bs []lazyBox
+	pos := 0
+	for pos < len(out) {
+		if pos+8 > len(out) {
+			return nil, fmt.Errorf("truncated box header at %d", pos)
+		}
+		size := int(uint32(out[pos])<<24 | uint32(out[pos+1])<<16 | uint32(out[pos+2])<<8 | uint32(out[pos+3]))
+		typ := string(out[pos+4 : pos+8])
+		hdr := 8
+		if size == 1 {
+			if pos+16 > len(out) {
+				return nil, fmt.Errorf("truncated 64-bit box header at %d", pos)
+			}
+			var v uint64
+			for _, c := range out[pos+8 : pos+16] {
+				v = v<<8 | uint64(c)
+			}
+			if v > 1<<40 {
+				return nil, fmt.Errorf("box %s at %d declares %d bytes", typ, pos, v)
+			}
+			size, hdr = int(v), 16
+		}
+		n := size
+		if typ == "mdat" {
+			n = hdr
+		}
+		if n < hdr || pos+n > len(out) {
+			return nil, fmt.Errorf("box %s at %d with size %d does not fit the %d bytes written", typ, pos, size, len(out))
+		}
+		bs = append(bs, lazyBox{typ, pos, n})
+		pos += n
+	}
+	return bs, nil
+}
+
+// oracle2Lazy is oracle 2 for a file decoded with DecModeLazyMdat: segment-mode Encode and
+// EncodeSW write every mdat as its header only, so ftyp, moov, emsg and moof are compared
+// byte by byte with the input and every mdat by its header (size field and header form).
+func (e *env) oracle2Lazy(f *mp4.File) {
+	in := e.b.Bytes
+	leadGap := false
+	for _, s := range e.shapes {
+		if s.Rewritten && s.Runs == 1 && s.LeadGap {
+			leadGap = true
+		}
+	}
+	for _, sw := range []bool{false, true} {
+		name := "Encode"
+		if sw {
+			name = "EncodeSW"
+		}
+		out, err, pi := encodeFile(e.c, f, sw, len(in))
+		if pi != nil {
+			e.c.Violation(runner.PanicKey("reencode-lazy-"+name, pi), "segment-mode "+name+" of the lazily decoded file panics: "+pi.Value,
+				detail{History: e.h, Flags: uint32(e.flags), Reader: e.reader, What: pi.Stack})
+			continue
+		}
+		if err != nil {
+			e.viol("reencode-lazy/"+name+"-error", "segment-mode "+name+" of the lazily decoded file fails: "+err.Error())
+			continue
+		}
+		obs, werr := walkLazy(out)
+		if werr != nil {
+			e.viol("reencode-lazy/"+name+"-not-tiling", "output does not tile into boxes and mdat headers: "+werr.Error())
+			continue
+		}
+		var a []genfrag.Piece
+		for _, p := range e.b.Pieces {
+			if kept[p.Type] {
+				a = append(a, p)
+			}
+		}
+		var bn []lazyBox
+		for _, n := range obs {
+			if kept[n.Type] {
+				bn = append(bn, n)
+			}
+		}
+		bad, badAt := "", 0
+		for i := 0; i < len(a) || i < len(bn); i++ {
+			badAt = i
+			switch {
+			case i >= len(bn):
+				bad = fmt.Sprintf("%s at input offset %d is missing from the output", a[i].Type, a[i].Start)
+			case i >= len(a):
+				bad = fmt.Sprintf("surplus %s at output offset %d", bn[i].Type, bn[i].Start)
+			case a[i].Type != bn[i].Type:
+				bad = fmt.Sprintf("box %d of the kept sequence: input %s at %d, output %s at %d", i, a[i].Type, a[i].Start, bn[i].Type, bn[i].Start)
+			default:
+				want := in[a[i].Start:a[i].End()]
+				if a[i].Type == "mdat" {
+					hl := 8
+					if len(want) >= 16 && want[0] == 0 && want[1] == 0 && want[2] == 0 && want[3] == 1 {
+						hl = 16
+					}
+					if a[i].Size == hl {
+						hl = a[i].Size // empty payload: the whole box is there
+					}
+					want = want[:hl]
+				}
+				if !bytes.Equal(want, out[bn[i].Start:bn[i].Start+bn[i].Len]) {
+					bad = fmt.Sprintf("%s at input offset %d differs in the output of the lazily decoded file (offset %d)", a[i].Type, a[i].Start, bn[i].Start)
+				}
+			}
+			if bad != "" {
+				break
+			}
+		}
+		if bad != "" {
+			if e.shapes != nil && badAt < len(a) && a[badAt].Frag >= 0 {
+				e.keyFrags = []int{e.fragOrdinal(a[badAt].Frag)}
+			}
+			e.viol("reencode-lazy/"+name+"-differs", bad)
+			e.keyFrags = nil
+			continue
+		}
+		e.c.Count("oracle2_lazy_held", 1)
+		if leadGap {
+			e.c.Count("oracle2_lazy_held_on_files_with_single_trun_lead_gap", 1)
+		}
+	}
+}
+
 // segFirstBytes computes, from the output bytes alone plus the decoder's
 // partition (number of boxes per segment), the first byte of each segment and
 // the end of the media in a segment-mode output.
@@ -1188,6 +1344,121 @@ func (e *env) oracle3(f *mp4.File, part partition, add, nz bool) {
 		return
 	}
 	e.checkIndex("UpdateSidx-boxtree", outBT, f, part, had, add, nz)
+}
+
+// oracle3AfterAddEmsg continues the history on the decoded file with the public mutator
+// Fragment.AddEmsg (1..2 new emsg boxes on a drawn, non-empty set of fragments: first or later
+// fragments of their segments, with or without emsg boxes already there), then UpdateSidx and
+// segment-mode Encode: the index clauses are judged on the written bytes (the first byte of a
+// segment is the first box segment mode writes for it, the new emsg included; box counts per
+// segment come from Fragment.Children, positions from the output).
+func (e *env) oracle3AfterAddEmsg(f *mp4.File, part partition, nz bool) {
+	r := e.c.Rand
+	type at struct{ si, fi int }
+	var all, picked []at
+	for si, seg := range f.Segments {
+		for fi, fr := range seg.Fragments {
+			// AddEmsg is specified for 'a sequence of emsg boxes at the start of the fragment': a fragment
+			// that holds an emsg after its moof/mdat (the decoder keeps the emsg boxes in front of a
+			// tfra-addressed moof with the fragment before) is outside that and left alone (the call
+			// panics there when the emsg is the last child: reported apart, not a matter of this property)
+			lead, trailing := true, false
+			for _, ch := range fr.Children {
+				if ch.Type() != "emsg" {
+					lead = false
+				} else if !lead {
+					trailing = true
+				}
+			}
+			if trailing {
+				e.c.Count("addemsg_fragments_with_trailing_emsg_left_alone", 1)
+				continue
+			}
+			all = append(all, at{si, fi})
+			if r.Chance(1, 3) {
+				picked = append(picked, at{si, fi})
+			}
+		}
+	}
+	if len(all) == 0 {
+		return
+	}
+	if len(picked) == 0 {
+		picked = []at{all[r.Intn(len(all))]}
+	}
+	added := 0
+	pi := e.c.Guard(func() {
+		for _, p := range picked {
+			fr := f.Segments[p.si].Fragments[p.fi]
+			where := "later-fragment"
+			if p.fi == 0 {
+				where = "first-fragment-of-segment"
+				if f.Segments[p.si].Styp != nil {
+					where += "-after-styp"
+				}
+			}
+			has := "no-emsg-before"
+			if len(fr.Children) > 0 && fr.Children[0].Type() == "emsg" {
+				has = "emsg-before"
+			}
+			n := 1 + r.Intn(2)
+			for k := 0; k < n; k++ {
+				em := &mp4.EmsgBox{Version: byte(r.Intn(2)), TimeScale: 1000, EventDuration: uint32(r.Intn(5000)), ID: uint32(1000 + added),
+					SchemeIDURI: "urn:verif:added", Value: fmt.Sprint(r.Intn(100)), MessageData: make([]byte, r.Intn(40))}
+				if em.Version == 1 {
+					em.PresentationTime = uint64(r.Intn(100000))
+				} else {
+					em.PresentationTimeDelta = uint32(r.Intn(100000))
+				}
+				fr.AddEmsg(em)
+				added++
+			}
+			e.c.Seen("addemsg_mutation_site", where+"/"+has)
+		}
+	})
+	if pi != nil {
+		e.c.Violation(runner.PanicKey("addemsg", pi), "Fragment.AddEmsg panics: "+pi.Value,
+			detail{History: e.h, Flags: uint32(e.flags), Reader: e.reader, What: pi.Stack})
+		return
+	}
+	had := f.Sidx != nil
+	var uerr error
+	if pi := e.c.Guard(func() { uerr = f.UpdateSidx(true, nz) }); pi != nil {
+		e.c.Violation(runner.PanicKey("updatesidx-after-addemsg", pi), "UpdateSidx after Fragment.AddEmsg panics: "+pi.Value,
+			detail{History: e.h, Flags: uint32(e.flags), Reader: e.reader, What: pi.Stack})
+		return
+	}
+	if uerr != nil {
+		e.c.Seen("updatesidx_error", short(uerr.Error()))
+		return
+	}
+	out, err, pi := encodeFile(e.c, f, false, len(e.b.Bytes)+added*200)
+	if pi != nil || err != nil {
+		e.c.Count("oracle3_after_addemsg_encode_failed", 1)
+		return
+	}
+	e.c.Count("oracle3_after_addemsg_runs", 1)
+	e.c.Count("oracle3_after_addemsg_boxes_added", int64(added))
+	// observation: the new boxes are in the output (the index check below would misalign otherwise)
+	if nodes, werr := boxwalk.Walk(out); werr == nil {
+		n := 0
+		for _, nd := range nodes {
+			if nd.Type == "emsg" {
+				n++
+			}
+		}
+		for _, p := range e.b.Pieces {
+			if p.Type == "emsg" {
+				n--
+			}
+		}
+		if n == added {
+			e.c.Count("oracle3_after_addemsg_all_new_boxes_written", 1)
+		} else {
+			e.c.Count("oracle3_after_addemsg_new_boxes_missing_in_output", 1)
+		}
+	}
+	e.checkIndex("UpdateSidx-after-AddEmsg", out, f, part, had, true, nz)
 }
 
 func short(s string) string {
